@@ -60,7 +60,7 @@ TABLE = [
     {'name': 'RetainState_mcC_thorough.cfg', 'comment': 'exhaustive, copy/read-only focus: block > 2 components + 3 pool ids (thorough)', 'N': 6, 'NVal': 2, 'NGrid': 2, 'MaxDepth': 1, 'MaxLevel': 5, 'keeps': 'KeepsSmall', 'acts': 'ActsCopy', 'tree': 'A'},
     {'name': 'RetainState_emitP.cfg', 'comment': 'edge emission, parameters focus (quick)', 'N': 2, 'NVal': 2, 'NGrid': 2, 'MaxDepth': 2, 'MaxLevel': 5, 'keeps': 'KeepsTwo', 'acts': 'ActsParams', 'tree': 'D', 'emit': True},
     {'name': 'RetainState_emitP_thorough.cfg', 'comment': 'edge emission, parameters focus, 5 actions deep (thorough)', 'N': 2, 'NVal': 2, 'NGrid': 2, 'MaxDepth': 2, 'MaxLevel': 6, 'keeps': 'KeepsTwo', 'acts': 'ActsParams', 'tree': 'D', 'emit': True},
-    {'name': 'RetainState_emitG.cfg', 'comment': 'edge emission, grid/cache focus: assembly (axial bounds) > block (hex pitch) (quick)', 'N': 2, 'NVal': 2, 'NGrid': 2, 'MaxDepth': 3, 'MaxLevel': 6, 'keeps': 'KeepsNone', 'acts': 'ActsGrid', 'tree': 'E', 'emit': True},
+    {'name': 'RetainState_emitG.cfg', 'comment': 'edge emission, grid/cache focus: assembly (axial bounds) > block (hex pitch) (quick)', 'N': 2, 'NVal': 2, 'NGrid': 2, 'MaxDepth': 2, 'MaxLevel': 6, 'keeps': 'KeepsNone', 'acts': 'ActsGridQ', 'tree': 'E', 'emit': True},
     {'name': 'RetainState_emitG_thorough.cfg', 'comment': 'edge emission, grid/cache focus (thorough)', 'N': 3, 'NVal': 2, 'NGrid': 2, 'MaxDepth': 3, 'MaxLevel': 6, 'keeps': 'KeepsNone', 'acts': 'ActsGrid', 'tree': 'B', 'emit': True},
     {'name': 'RetainState_emitC.cfg', 'comment': 'edge emission, copy/read-only focus (quick)', 'N': 4, 'NVal': 2, 'NGrid': 2, 'MaxDepth': 1, 'MaxLevel': 4, 'keeps': 'KeepsNone', 'acts': 'ActsCopy', 'tree': 'D', 'emit': True},
     {'name': 'RetainState_emitC_thorough.cfg', 'comment': 'edge emission, copy/read-only focus (thorough)', 'N': 6, 'NVal': 2, 'NGrid': 2, 'MaxDepth': 1, 'MaxLevel': 4, 'keeps': 'KeepsSmall', 'acts': 'ActsCopy', 'tree': 'A', 'emit': True},
@@ -76,11 +76,13 @@ TABLE = [
     {'name': 'RetainState_emitD_thorough.cfg', 'comment': 'edge emission, database family on the smallest test reactor, deeper (thorough)', 'N': 54, 'NVal': 2, 'NGrid': 2, 'MaxDepth': 1, 'MaxLevel': 6, 'keeps': 'KeepsNone', 'acts': 'ActsDbR', 'tree': 'R', 'emit': 'EmitDb', 'dbcls': 'RDbCls', 'copycls': 'RCopyCls', 'calls': 'NoCalls'},
     {'name': 'RetainState_asbuilt_dbserial.cfg', 'comment': 'Database.load setting the counter to the largest STORED serial (a seeded change): TLC must refute SerialsBelowNext (selftest only)', 'N': 8, 'NVal': 2, 'NGrid': 2, 'MaxDepth': 1, 'MaxLevel': 6, 'keeps': 'KeepsNone', 'acts': 'ActsDb', 'tree': 'D', 'dbserial': 'db', 'only': ['SerialsBelowNext', 'SerialFresh', 'SerialsUnique']},
     {'name': 'RetainState_emitU.cfg', 'comment': 'edge emission: cmp.q starts UNSET (parameter without default); keep-sets with exactly one of two same-named definitions (quick)', 'N': 2, 'NVal': 2, 'NGrid': 2, 'MaxDepth': 2, 'MaxLevel': 4, 'keeps': 'KeepsOne', 'acts': 'ActsParams', 'tree': 'D', 'emit': True, 'unset': 'McUnset'},
-    {'name': 'RetainState_emitU_thorough.cfg', 'comment': 'edge emission: unset start / one-of-two same-named keep-sets, deeper (thorough)', 'N': 2, 'NVal': 3, 'NGrid': 2, 'MaxDepth': 2, 'MaxLevel': 5, 'keeps': 'KeepsOne', 'acts': 'ActsParams', 'tree': 'D', 'emit': True, 'unset': 'McUnset'},
+    {'name': 'RetainState_emitU_thorough.cfg', 'comment': 'edge emission: unset start / one-of-two same-named keep-sets, deeper (thorough)', 'N': 2, 'NVal': 2, 'NGrid': 2, 'MaxDepth': 2, 'MaxLevel': 5, 'keeps': 'KeepsOne', 'acts': 'ActsParams', 'tree': 'D', 'emit': True, 'unset': 'McUnset'},
     {'name': 'RetainState_emitL.cfg', 'comment': 'edge emission: block > fuel, clad, bond with LINKED dimensions; copies, scopes, assignments to the linked-to and the linked dimension (quick)', 'N': 8, 'NVal': 2, 'NGrid': 2, 'MaxDepth': 1, 'MaxLevel': 4, 'keeps': 'KeepsLink', 'acts': 'ActsLinkQ', 'tree': 'F', 'emit': 'EmitL', 'unset': 'McUnset', 'link': 'LinkF', 'copycls': 'BlkOnly', 'parof': 'QOnly'},
     {'name': 'RetainState_emitL_thorough.cfg', 'comment': 'edge emission: linked dimensions, copies and pickles of every object (thorough)', 'N': 8, 'NVal': 2, 'NGrid': 2, 'MaxDepth': 1, 'MaxLevel': 4, 'keeps': 'KeepsLink', 'acts': 'ActsLink', 'tree': 'F', 'emit': 'EmitL', 'unset': 'McUnset', 'link': 'LinkF'},
     {'name': 'RetainState_mcL.cfg', 'comment': 'exhaustive: linked dimensions + unset start, copies and scopes (quick)', 'N': 8, 'NVal': 2, 'NGrid': 2, 'MaxDepth': 2, 'MaxLevel': 4, 'keeps': 'KeepsLink', 'acts': 'ActsLink', 'tree': 'F', 'unset': 'McUnset', 'link': 'LinkF'},
     {'name': 'RetainState_mcL_thorough.cfg', 'comment': 'exhaustive: linked dimensions + unset start, copies and scopes (thorough)', 'N': 8, 'NVal': 2, 'NGrid': 2, 'MaxDepth': 2, 'MaxLevel': 5, 'keeps': 'KeepsLink', 'acts': 'ActsLink', 'tree': 'F', 'unset': 'McUnset', 'link': 'LinkF'},
+    {'name': 'RetainState_emitF.cfg', 'comment': 'edge emission: a tree made read-only INSIDE an open scope; the exit is refused and nothing is restored (quick + thorough)', 'N': 2, 'NVal': 2, 'NGrid': 2, 'MaxDepth': 2, 'MaxLevel': 5, 'keeps': 'KeepsNone', 'acts': 'ActsFreeze', 'tree': 'D', 'emit': True, 'parof': 'QOnly'},
+    {'name': 'RetainState_emitG2_thorough.cfg', 'comment': 'edge emission, grid focus with Block.setHeight: assembly > block, deeper (thorough)', 'N': 2, 'NVal': 2, 'NGrid': 3, 'MaxDepth': 2, 'MaxLevel': 6, 'keeps': 'KeepsNone', 'acts': 'ActsGrid', 'tree': 'E', 'emit': True},
 ]
 
 if __name__ == "__main__":
